@@ -1,7 +1,7 @@
 #!/bin/sh
-# usage: tools/seed2_eval.sh <Cnn> <deliver-root>      confirm the second-round changes <root>/1 and <root>/2 as seeded/<Cnn>b, <Cnn>c and run the check against each
+# usage: tools/seed2_eval.sh <Cnn> <deliver-root> [sfx1 sfx2]     confirm the changes <root>/1 and <root>/2 as seeded/<Cnn><sfx> (default b, c) and run the check against each
 P="$1"; ROOT="$2"; HERE="$(cd "$(dirname "$0")/.." && pwd)"; cd "$HERE"
-for pair in 1:b 2:c; do
+for pair in 1:${3:-b} 2:${4:-c}; do
   k=${pair%%:*}; sfx=${pair##*:}
   [ -f "$ROOT/$k/patch.diff" ] || continue
   tools/confirm_seed.sh "$P$sfx" "$ROOT/$k" | tail -1
